@@ -41,7 +41,7 @@ def gen_cases(tier, seed):
     cases = []
     if tier == 'quick':
         sites = [(-85.0, -179.5, 3000.0), (-33.0, 151.0, 20000.0), (0.0, 10.0, -500.0), (60.0, 40.0, 100.0),
-                 (47.0, -179.999, 3000.0), (85.0, 151.0, 20000.0)]
+                 (47.0, -179.999, 3000.0), (85.0, 151.0, 20000.0), (-60.0, 179.9995, 3000.0)]
         cruises = [(0.0, 45.0, 0.0), (30.0, 45.0, -5.0), (300.0, 200.0, 5.0)]
         ldr = [0.1, 0.05, 0.025, 0.0125]
     else:
